@@ -1,8 +1,11 @@
 #!/bin/sh
-# run the owning quick check against every seeded change and every single-defect patch; print one line each
+# run the owning quick check against every seeded change; print one line each
+# (seeded changes whose meta.json says they are caught by another property's check are run against that one too)
 cd /verif
 for d in seeded/*/; do
   id=$(basename $d); prop=${id%%-*}
-  out=$(tools/mutant_run.sh /verif/$d/patch.diff $prop 2>&1)
+  extra=""
+  case $id in C20-r5) extra="C14 C16";; esac
+  out=$(tools/mutant_run.sh /verif/$d/patch.diff $prop $extra 2>&1)
   echo "$id: $(echo "$out" | grep -E '^== ' | tr '\n' ' ') $(echo "$out" | grep -E ' at step ' | head -1 | cut -c1-140)"
 done
